@@ -203,8 +203,9 @@ func VH_C18_tounicode_map() {
 // neighbours are equal, which runs equal DW and which equal the zero sentinel the code appends.
 // All combinations are enumerated as separate concrete paths (symbolic advances go through
 // float64 -> scale -> int, which neither float domain decides in reasonable time: 44 solver
-// timeouts in 7 minutes), so this harness is bounded exhaustive enumeration by the engine, not a
-// solver verdict.  1..6 glyphs besides .notdef (7 in the thorough tier; the range form needs a
+// timeouts in 7 minutes - before the engine had integer shadows), so this harness is bounded
+// exhaustive enumeration by the engine, not a solver verdict; VH_C18_warray_sym_Q below is the
+// symbolic version.  1..6 glyphs besides .notdef (7 in the thorough tier; the range form needs a
 // run of at least 5 equal widths).
 var vhC18AdvDomain = []uint16{500, 0, 600}
 
@@ -284,4 +285,87 @@ func VH_C18_warray() {
 	}
 	vAssertI("C18.warray.every_cid_gets_its_width", okW)
 	vAssertI("C18.warray.no_cid_listed_twice", okOnce)
+}
+
+// C18-H4b: the same decoding with SYMBOLIC advances (any 12-bit advance per glyph, drawn as SMT Int
+// variables; the engine's integer shadows keep float64 -> scale -> int in integer arithmetic), 1-6
+// (thorough 7) glyphs besides .notdef.
+func VH_C18_warray_sym_Q() {
+	if !vInterp() {
+		return
+	}
+	vMerge(false) // the run start/end indices must stay concrete (they are slice bounds)
+	n := vChoose(1, 6+vTier()) + 1
+	w, f := vhC18Setup(n)
+	vhC18Uni = make([]rune, n)
+	vhC18Adv = make([]uint16, n)
+	for g := 0; g < n; g++ {
+		vhC18Uni[g] = rune(0x40 + g)
+		a := vNondetIntQ(13)
+		vAssumeI(0 <= a && a <= 4095)
+		vhC18Adv[g] = uint16(a)
+	}
+	w.writeFont(pdfRef(4), f, false)
+
+	// the font dictionary is the last value written
+	ok := len(vhC18Vals) > 0
+	if !ok {
+		vAssertI("C18.warraysym.dict_written", false)
+		return
+	}
+	dict, ok1 := vhC18Vals[len(vhC18Vals)-1].(pdfDict)
+	vAssertI("C18.warraysym.dict_written", ok1)
+	if !ok1 {
+		return
+	}
+	desc := dict["DescendantFonts"].(pdfArray)[0].(pdfDict)
+	DW := desc["DW"].(int)
+	W := desc["W"].(pdfArray)
+	got := make([]int, n)
+	seen := make([]int, n)
+	for c := range got {
+		got[c] = DW
+	}
+	wf := true
+	for i := 0; i < len(W) && wf; {
+		c, isInt := W[i].(int)
+		if !isInt || i+1 >= len(W) {
+			wf = false
+			break
+		}
+		switch nx := W[i+1].(type) {
+		case pdfArray:
+			for k, v := range nx {
+				if c+k < n {
+					got[c+k] = v.(int)
+					seen[c+k]++
+				}
+			}
+			wf = wf && len(nx) > 0
+			i += 2
+		case int:
+			if i+2 >= len(W) || nx < c {
+				wf = false
+				break
+			}
+			for cid := c; cid <= nx; cid++ {
+				if cid < n {
+					got[cid] = W[i+2].(int)
+					seen[cid]++
+				}
+			}
+			i += 3
+		default:
+			wf = false
+		}
+	}
+	vAssertI("C18.warraysym.well_formed", wf)
+	okW, okOnce := true, true
+	for c := 0; c < n; c++ {
+		want := int(1000.0/float64(f.SFNT.Head.UnitsPerEm)*float64(vhC18Adv[c]) + 0.5)
+		okW = okW && got[c] == want
+		okOnce = okOnce && seen[c] <= 1
+	}
+	vAssertI("C18.warraysym.every_cid_gets_its_width", okW)
+	vAssertI("C18.warraysym.no_cid_listed_twice", okOnce)
 }
